@@ -144,9 +144,43 @@ def run(ctx):
         for w in st["fails"][:2]:
             fails.append(dict(template=tmpl.__name__, seed=seed, why=w, actions=[str(a) for a in obs.actions]))
         PR.reset()
-    ctx.programs += n2
+    # ---- a SECOND run on the context of a finished run that left events queued (fan-out into a 1-worker step whose first
+    # invocation ends the run): the second run gets a new StartEvent and carries the left-over queue in its initial state
+    import vloop
+    from workflows.events import StartEvent, StopEvent
+    from suites.wfevents import T1
+
+    async def second_run(seed):
+        r2 = random.Random(seed)
+        rec = E.Recorder()
+        n, k = r2.choice([2, 3, 4]), r2.choice([1, 1, 2])
+        spec = dict(steps={
+            "a_start": dict(accepts=[StartEvent], returns=[T1, type(None)], num_workers=1, script=[("send", T1, n, None), ("return", None)]),
+            "b_work": dict(accepts=[T1], returns=[StopEvent], num_workers=k, script=[("gate", "w"), ("return", StopEvent)]),
+        })
+        wf = E.build_workflow(spec, rec)
+        obs1 = await E.drive(wf, rec, r2, policy="random")
+        if not obs1.done or obs1.exception is not None:
+            return None
+        PR.reset()
+        st, hook = l2_monitor_factory()
+        await E.drive(wf, rec, r2, ctx=obs1.handler.ctx, start_event=StartEvent(), hooks=[hook], policy="random")
+        return st
+    n3, second_checks = ctx.n(20, 300), 0
+    for i in range(n3):
+        seed = rng.randrange(1 << 30)
+        st = vloop.run(second_run(seed))
+        PR.reset()
+        if st is None:
+            continue
+        second_checks += st["checks"]
+        ctx.count(1, ("l2-second-run", st["checks"]))
+        for w in st["fails"][:1]:
+            fails.append(dict(template="second run on the context of a finished run with events left queued", seed=seed, why=w, actions=[]))
+    ctx.programs += n2 + n3
     ctx.mark("engine")
-    ctx.suite("engine", runs=n2, live_vs_rebuilt_comparisons=checks, failures=len(fails))
+    ctx.suite("engine", runs=n2, live_vs_rebuilt_comparisons=checks, second_run_comparisons=second_checks, failures=len(fails))
+    ctx.require_coverage("engine", "second_run_comparisons", second_checks, 5)
     report_l2(ctx, fails)
     from props._engine_common import run_runnerdiff
     run_runnerdiff(ctx, ctx.n(60, 1500), 'C11_live_state_is_replay_of_log')
